@@ -214,6 +214,7 @@ func checkC01(c *Ctx) {
 	}
 	c.Floor("proxy-not-customised", len(created), 1, "NewSingleHostReverseProxy call sites")
 	c.copyBuffersExclusive()
+	c.abortPropagates()
 
 	// 4. transport does not re-code
 	ab := p.Fn("internal/loadbalancer", "LoadBalancer", "AddBackend")
@@ -281,12 +282,16 @@ func checkC05(c *Ctx) {
 	c.Clause("weighted_round_robin: currentWeight only under the strategy mutex; each eligible backend gains its weight, the strict maximum is chosen and loses the eligible total (nginx smooth WRR shape)")
 	c.Clause("least_connections: gauges read atomically; a candidate replaces the choice only when its gauge is smaller, so the result is a minimum of what was read; candidates are health-tested")
 	c.Clause("weights below 1 count as 1 where the backend is created")
+	c.Clause("the in-flight gauge least_connections compares is changed only by an atomic ±1 at request start/end (a lost decrement makes an idle backend look loaded)")
 	c.NotDecided("exact per-window counts of round robin / smooth WRR; the WRR bound after membership changes — numeric results over histories")
 
 	lockDiscipline(c, func(k string) bool {
 		return k == "loadbalancer.RoundRobinStrategy.current" || k == "loadbalancer.weightedBackend.currentWeight" || k == "loadbalancer.Backend.ActiveConnections" || strings.HasSuffix(k, "Strategy.backends")
 	})
 	c.strategyHealthGuard()
+	// least_connections picks the minimum of the in-flight gauges: they must equal the number of
+	// requests in flight (only ±1 per request start/end, atomically)
+	c.gaugeWriters()
 
 	// 1. round robin
 	rr := p.Fn("internal/loadbalancer", "RoundRobinStrategy", "NextBackend")
@@ -645,6 +650,8 @@ func checkC06(c *Ctx) {
 		// … and the raw RemoteAddr (port included) is used only where SplitHostPort refused it
 		for f := range seen {
 			var errBlocks []*ssa.BasicBlock
+			type edge struct{ from, to *ssa.BasicBlock }
+			errEdges := map[edge]bool{}
 			instrsOf(f, func(in ssa.Instruction) {
 				ifi, ok := in.(*ssa.If)
 				if !ok {
@@ -656,8 +663,10 @@ func checkC06(c *Ctx) {
 				}
 				if r.Neq { // err != nil
 					errBlocks = append(errBlocks, ifi.Block().Succs[0])
+					errEdges[edge{ifi.Block(), ifi.Block().Succs[0]}] = true
 				} else { // err == nil
 					errBlocks = append(errBlocks, ifi.Block().Succs[1])
+					errEdges[edge{ifi.Block(), ifi.Block().Succs[1]}] = true
 				}
 			})
 			instrsOf(f, func(in ssa.Instruction) {
@@ -671,6 +680,29 @@ func checkC06(c *Ctx) {
 						ci, isCall := u.(ssa.CallInstruction)
 						if _, dbg := u.(*ssa.DebugRef); dbg {
 							continue
+						}
+						if ph, isPhi := u.(*ssa.Phi); isPhi {
+							// a default that is overridden when the split succeeds: the raw value may
+							// enter the merge only along the edge on which SplitHostPort refused it
+							okPhi := true
+							for i, e := range ph.Edges {
+								if e != ssa.Value(ld) {
+									continue
+								}
+								pred := ph.Block().Preds[i]
+								along := errEdges[edge{pred, ph.Block()}]
+								for _, eb := range errBlocks {
+									if len(eb.Preds) == 1 && eb.Dominates(pred) {
+										along = true
+									}
+								}
+								if !along {
+									okPhi = false
+								}
+							}
+							if okPhi {
+								continue
+							}
 						}
 						if !isCall || CalleeName(ci) != "net.SplitHostPort" {
 							onlySplit = false
@@ -690,6 +722,53 @@ func checkC06(c *Ctx) {
 					bad = append(bad, p.InstrPos(ld)+": the raw RemoteAddr (address:port) can reach the hash key although it is splittable: the same client maps to different backends per connection")
 				}
 			})
+		}
+		// the forwarded-for list is reduced to its first element (the client); the trailing hops
+		// differ with the route a request took and must not reach the hash
+		if hdrKeys["X-Forwarded-For"] {
+			first := false
+			for f := range seen {
+				for _, ci := range callsIn(f) {
+					call, isCall := ci.(*ssa.Call)
+					if !isCall {
+						continue
+					}
+					n := CalleeName(ci)
+					args := ci.Common().Args
+					switch n {
+					case "strings.Split", "strings.SplitN":
+						if sep, ok := constStr(args[1]); !ok || sep != "," {
+							continue
+						}
+						if n == "strings.SplitN" {
+							k, isK := constInt(args[2])
+							if !isK || (k >= 0 && k < 2) {
+								bad = append(bad, p.InstrPos(ci)+": strings.SplitN(…, \",\", "+p.Desc(args[2], nil)+") does not split off the first element (n < 2 returns the whole string, or nothing): the entire X-Forwarded-For list, proxy hops included, is hashed and one client is spread over several backends")
+								continue
+							}
+						}
+						// element 0 is what is used
+						if refs := call.Referrers(); refs != nil {
+							for _, r := range *refs {
+								if ia, ok := r.(*ssa.IndexAddr); ok {
+									if k, isK := constInt(ia.Index); isK && k == 0 {
+										first = true
+									} else {
+										bad = append(bad, p.InstrPos(ia)+": an element other than the first of the X-Forwarded-For list is used as the client address")
+									}
+								}
+							}
+						}
+					case "strings.Cut":
+						if sep, ok := constStr(args[1]); ok && sep == "," {
+							first = true
+						}
+					}
+				}
+			}
+			if !first && len(bad) == 0 {
+				bad = append(bad, "X-Forwarded-For is hashed without being reduced to its first element: the same client maps to different backends depending on the proxies its request passed")
+			}
 		}
 		sort.Strings(bad)
 		if len(bad) == 0 {
@@ -1382,8 +1461,8 @@ func (c *Ctx) poolNewShared(poolAddr ssa.Value, depth int) string {
 	if why != "" {
 		return why
 	}
-	if !found {
-		return "takes buffers from a sync.Pool whose New is never set in analysed code (" + key + ")"
-	}
+	// (a pool without New hands out only what was Put — owned by one taker between Get and Put — or
+	// nil, which the caller has to replace by an allocation of its own)
+	_ = found
 	return ""
 }
